@@ -114,10 +114,44 @@ struct xmlc_cb_entry {
     ((p)->callback_stack.item_size == sizeof(struct xmlc_cb_entry) && (p)->callback_stack.alloc != NULL &&             \
      (p)->callback_stack.current_size >= sizeof(struct xmlc_cb_entry) && (p)->callback_stack.current_size < VERIF_HUGE && \
      (p)->callback_stack.length <= (p)->callback_stack.current_size / sizeof(struct xmlc_cb_entry))
-#define XML_STACK_OK(p) (XML_STACK_HDR_OK(p) && __CPROVER_is_fresh((p)->callback_stack.data, (p)->callback_stack.current_size))
+/* The enforcing units of aws_xml_node_traverse are instantiated per stack capacity (-DVERIF_XML_STACK_CAP=<entries>): a
+ * symbolic capacity makes the SSA conversion run out of memory.  4 is what aws_xml_parse allocates; growth doubles it. */
+#ifdef VERIF_XML_STACK_CAP
+#    define XML_STACK_CAP_OK(p) ((p)->callback_stack.current_size == (size_t)(VERIF_XML_STACK_CAP) * sizeof(struct xmlc_cb_entry))
+#else
+#    define XML_STACK_CAP_OK(p) 1
+#endif
+#define XML_STACK_OK(p) (XML_STACK_HDR_OK(p) && XML_STACK_CAP_OK(p) && __CPROVER_is_fresh((p)->callback_stack.data, (p)->callback_stack.current_size))
 /* the next push has to grow the storage */
 #define XML_STACK_FULL(p) ((p)->callback_stack.current_size / sizeof(struct xmlc_cb_entry) <= (p)->callback_stack.length)
 #define XML_ERR_OK(p) ((p)->error == 0 || ((p)->error == AWS_OP_ERR && g_last_error != 0))
+
+
+/* aws_array_list_push_back / aws_array_list_pop_back on the callback stack as aws_xml_node_traverse needs them: header
+ * facts only.  Checked against the real inline functions (and aws_array_list_ensure_capacity) by the units
+ * xml_stack_push / xml_stack_pop. */
+#define XML_LIST_HDR_OK(l)                                                                                             \
+    ((l)->item_size == sizeof(struct xmlc_cb_entry) && (l)->alloc != NULL && (l)->current_size >= sizeof(struct xmlc_cb_entry) && \
+     (l)->current_size < VERIF_HUGE && (l)->length <= (l)->current_size / sizeof(struct xmlc_cb_entry))
+#define XML_LIST_FULL(l) ((l)->current_size / sizeof(struct xmlc_cb_entry) <= (l)->length)
+#define XML_LIST_FULL_OLD(l) (OLD((l)->current_size) / sizeof(struct xmlc_cb_entry) <= OLD((l)->length))
+int xmlc_stack_push(struct aws_array_list *AWS_RESTRICT list, const void *val)
+__CPROVER_requires(__CPROVER_is_fresh(list, sizeof(*list)) && XML_LIST_HDR_OK(list) && __CPROVER_is_fresh(list->data, list->current_size))
+__CPROVER_requires(__CPROVER_is_fresh(val, sizeof(struct xmlc_cb_entry)))
+__CPROVER_assigns(list->length, __CPROVER_object_whole(list->data))
+__CPROVER_assigns(XML_LIST_FULL(list) : list->data, list->current_size)
+__CPROVER_frees(XML_LIST_FULL(list) : list->data)
+__CPROVER_ensures(RET == AWS_OP_SUCCESS && list->length == OLD(list->length) + 1 && XML_LIST_HDR_OK(list) && list->alloc == OLD(list->alloc))
+__CPROVER_ensures(!XML_LIST_FULL_OLD(list) ==> list->current_size == OLD(list->current_size) && PEQ(list->data, OLD(list->data)))
+__CPROVER_ensures(XML_LIST_FULL_OLD(list) ==> list->current_size == 2 * OLD(list->current_size) && __CPROVER_is_fresh(list->data, list->current_size))
+;
+int xmlc_stack_pop(struct aws_array_list *AWS_RESTRICT list)
+__CPROVER_requires(__CPROVER_is_fresh(list, sizeof(*list)) && XML_LIST_HDR_OK(list) && __CPROVER_is_fresh(list->data, list->current_size))
+__CPROVER_assigns(list->length > 0 : list->length, __CPROVER_object_whole(list->data))
+__CPROVER_assigns(list->length == 0 : g_last_error, g_raise_count)
+__CPROVER_ensures(RET == AWS_OP_SUCCESS || RET == AWS_OP_ERR)
+__CPROVER_ensures(list->length == (OLD(list->length) > 0 ? OLD(list->length) - 1 : 0) && XML_LIST_HDR_OK(list))
+;
 
 /* requires: parser->doc is a suffix of the document (f: the function this clause belongs to) */
 #define XML_REQ_DOC(f, p)                                                                                              \
